@@ -8,7 +8,10 @@ from ..engine import live, monitors, specgen, suite
 from ..runner import Env, Outcome, Violation
 
 THEOREMS = ["C12_roundtrip_stable", "C12_resumed_step", "C12_resumed_slots_ok", "C12_queued_keep_retry_state", "C12_waiting_keep_retry_state",
-            "C12_refuted_inprogress_budget", "C12_inprogress_budget_partial", "C12_refuted_scheduled_retry"]
+            "C12_refuted_inprogress_budget", "C12_inprogress_budget_partial", "C12_refuted_scheduled_retry",
+            "C12_resumed_run_restarts_pending", "C12_resumed_run_retry_records", "C12_parked_resume_same_future",
+            "C12_roundtrip_iterate", "C12_payload_stable", "C12_todict_read_back", "C12_v0_resumed_step",
+            "C12_foreign_version_reads_nothing", "C12_source_shape"]
 EXPLANATION = (
     "Lean (model Serial = to_serialized -> JSON -> from_serialized): the serialised form is stable after one round trip for every "
     "state; the resumed queue is the queued invocations followed by the in-progress ones, nothing is in progress (worker-limit "
